@@ -685,7 +685,13 @@ impl UdpSink {
         static MARK: std::sync::atomic::AtomicU64 = std::sync::atomic::AtomicU64::new(1);
         let id = MARK.fetch_add(1, Ordering::SeqCst);
         let marker = format!("\u{0}hx-drain-marker-{}", id).into_bytes();
-        let bind = if self.addr.is_ipv6() { "[::1]:0" } else { "127.0.0.1:0" };
+        let bind = if self.addr.ip().is_loopback() {
+            if self.addr.is_ipv6() { "[::1]:0" } else { "127.0.0.1:0" }
+        } else if self.addr.is_ipv6() {
+            "[::]:0"
+        } else {
+            "0.0.0.0:0"
+        };
         let sent = UdpSocket::bind(bind).and_then(|s| s.send_to(&marker, self.addr)).is_ok();
         let t = Instant::now();
         loop {
@@ -711,6 +717,28 @@ impl UdpSink {
     }
 }
 
+impl UdpSink {
+    /// does a datagram addressed to this sink's own address arrive at it?
+    fn drain_probe(&self) -> bool {
+        let bind = if self.addr.is_ipv6() { "[::]:0" } else { "0.0.0.0:0" };
+        let probe = b"\0hx-probe".to_vec();
+        if UdpSocket::bind(bind).and_then(|s| s.send_to(&probe, self.addr)).is_err() {
+            return false;
+        }
+        let t = Instant::now();
+        while t.elapsed() < Duration::from_millis(500) {
+            let mut g = self.got.lock().unwrap();
+            if let Some(p) = g.iter().position(|d| *d == probe) {
+                g.remove(p);
+                return true;
+            }
+            drop(g);
+            std::thread::sleep(Duration::from_millis(2));
+        }
+        false
+    }
+}
+
 impl Drop for UdpSink {
     fn drop(&mut self) {
         self.stop.store(true, Ordering::SeqCst);
@@ -732,9 +760,25 @@ struct JaegerEnds {
     v6: Option<JaegerEnd>,
     /// the IPv4 agent addressed in IPv4-mapped IPv6 form, [::ffff:127.0.0.1]:port
     mapped: Option<JaegerEnd>,
+    /// agents whose address is not a loopback address although they are on this machine: the
+    /// unspecified addresses (0.0.0.0, [::]) and the addresses of the machine's other interfaces
+    others: Vec<JaegerEnd>,
     n: usize,
     n6: usize,
     nm: usize,
+    no: usize,
+}
+
+/// the local address the machine would use towards `probe` (nothing is sent)
+fn outbound_addr(bind: &str, probe: &str) -> Option<std::net::IpAddr> {
+    let s = UdpSocket::bind(bind).ok()?;
+    s.connect(probe).ok()?;
+    let ip = s.local_addr().ok()?.ip();
+    if ip.is_loopback() || ip.is_unspecified() {
+        None
+    } else {
+        Some(ip)
+    }
 }
 
 impl JaegerEnds {
@@ -756,10 +800,40 @@ impl JaegerEnds {
         } else {
             None
         };
-        JaegerEnds { v4: mk(UdpSink::new()), v6, mapped, n: 0, n6: 0, nm: 0 }
+        let mut others = vec![];
+        let mut binds = vec!["0.0.0.0:0".to_string()];
+        if v6.is_some() {
+            binds.push("[::]:0".to_string());
+        }
+        if let Some(ip) = outbound_addr("0.0.0.0:0", "192.0.2.1:9") {
+            binds.push(format!("{}:0", ip));
+        }
+        if let Some(ip) = outbound_addr("[::]:0", "[2001:db8::1]:9") {
+            binds.push(format!("[{}]:0", ip));
+        }
+        for b in &binds {
+            if let Some(sink) = UdpSink::new_on(b) {
+                // usable only if a datagram sent to that address really arrives here
+                let probe = sink.drain_probe();
+                if probe {
+                    if let Ok(rep) = fastrace_jaeger::JaegerReporter::new(sink.addr, SERVICE) {
+                        others.push(JaegerEnd { sink, rep });
+                        continue;
+                    }
+                }
+            }
+            st.stat("non_loopback_agent_address_unusable", 1);
+        }
+        st.stat("non_loopback_agent_addresses", others.len() as u64);
+        JaegerEnds { v4: mk(UdpSink::new()), v6, mapped, others, n: 0, n6: 0, nm: 0, no: 0 }
     }
     fn pick(&mut self) -> &mut JaegerEnd {
         self.n += 1;
+        if self.n % 5 == 2 && !self.others.is_empty() {
+            self.no += 1;
+            let k = (self.n / 5) % self.others.len();
+            return &mut self.others[k];
+        }
         if self.n % 3 == 0 {
             if let Some(e) = self.v6.as_mut() {
                 self.n6 += 1;
@@ -1007,6 +1081,7 @@ fn run_jaeger(st: &mut St, r: &mut Rng, n: usize, deadline: Instant) {
     }
     st.stat("batches_to_an_ipv6_agent", ends.n6 as u64);
     st.stat("batches_to_an_ipv4_mapped_agent_address", ends.nm as u64);
+    st.stat("batches_to_a_non_loopback_agent_address", ends.no as u64);
 }
 
 fn run_split(st: &mut St, r: &mut Rng, n: usize, deadline: Instant) {
@@ -1097,6 +1172,7 @@ fn run_split(st: &mut St, r: &mut Rng, n: usize, deadline: Instant) {
     }
     st.stat("batches_to_an_ipv6_agent", ends.n6 as u64);
     st.stat("batches_to_an_ipv4_mapped_agent_address", ends.nm as u64);
+    st.stat("batches_to_a_non_loopback_agent_address", ends.no as u64);
 }
 
 // ---- datadog ----
